@@ -24,7 +24,8 @@ ENV = {"VERIF_YANG_DIR": os.path.join(paths.REPO, "tests", "modules", "yang")}  
 ASSUMPTIONS = [
     "data trees are valid instances over schema family S1 (DESIGN §2.4), built through the public API and validated; one module",
     "model fragment for apply: no two equal instances inside one duplicate-instance sibling group (key-less list, state leaf-list), "
-    "no operation below a matched key-less list instance; outside it only the laws are evaluated (findings F51, F53)",
+    "no operation below a matched key-less list instance (also excluded from the diff comparison); without LYD_DIFF_DEFAULTS no create "
+    "next to default instances of the same user-ordered leaf-list; outside it only the laws are evaluated (findings F51, F53, F57)",
     "the default flag of non-presence containers is not compared after apply (lyd_compare_siblings ignores it; finding F54)",
     "equality after apply is lyd_compare_siblings(FULL_RECURSION | DEFAULTS), the property's observation point",
 ]
@@ -156,7 +157,8 @@ def classify(component, what, case):
         return "F56"
     if law in ("cmp", "xml", "json", "lyb") and verdict in ("0", "differs") and "uo-move-with-dflt-change" in feat:
         return "F50"
-    if law in ("apply", "xml", "json", "lyb") and verdict in ("Einval", "applyerr") and "op-below-keyless-instance" in feat:
+    if law in ("apply", "cmp", "xml", "json", "lyb") and "op-below-keyless-instance" in feat:
+        # the partial parent copy in the diff matches no instance (LY_EINVAL) or, compared by full recursion, another one
         return "F51"
     if law in ("cmp", "xml", "json", "lyb") and verdict in ("0", "differs") and "uo-empty-value-anchor" in feat:
         return "F52"
@@ -258,8 +260,8 @@ def run(cx):
             "option settings; exhaustive pairs of duplicate-free user-ordered sequences; non-trivial = distinct (schema, A, B, opts) "
             "whose diff is not empty or whose reply is a distinct error")
     rng = cx.sub_rng("schemas")
-    nsch = cx.n(34, 140)
-    per = cx.n(64, 700)
+    nsch = cx.n(34, 100)
+    per = cx.n(64, 300)
     schemas = [tg.gen_schema(rng, i, max_depth=rng.choice([2, 3, 3])) for i in range(nsch)]
     corpus_cases = load_corpus(cx)
     cases = []
@@ -322,7 +324,7 @@ def build_trees(cx, schemas, cases):
     return [c for c in cases if c.a is not None and c.b is not None]
 
 
-def process(cx, schemas, cases, tag, laws=True, apply3=True):
+def process(cx, schemas, cases, tag, laws=True, apply3=True, law_mod=1):
     cases = build_trees(cx, schemas, cases)
     rng = cx.sub_rng("proc" + tag)
     # repaired findings: the model follows the repaired code (LyModel.Diff.Fixes)
@@ -347,7 +349,14 @@ def process(cx, schemas, cases, tag, laws=True, apply3=True):
 
     def nontrivial(line, reply):
         return not (reply[0] == "ok" and len(reply) > 1 and reply[1] == "-")
-    ri, rm = differential(cx, head, lines, kind, nontrivial)
+    def below_keyless(line, reply):
+        """libyang's diff has an operation below a matched key-less list instance (every such operation gets its own copy of
+        the parents: the model does not follow that; it only arises from default-flag-only differences, finding F51)"""
+        c, o = idx[line.split()[0]]
+        if o is None or reply[0] != "ok":
+            return False
+        return any(n.sn.kind == "list" and not n.sn.keys and op == "none" for n, op in walk_diff(tg.untok(c.s, reply[1])))
+    ri, rm = differential(cx, head, lines, kind, nontrivial, skip=below_keyless)
     for i, (c, o) in idx.items():
         r = ri.get(i, ["err", "NoReply"])
         if o is None:
@@ -376,6 +385,8 @@ def process(cx, schemas, cases, tag, laws=True, apply3=True):
     lines, idx = [], {}
     for k, c in enumerate(cases):
         d = tg.hx(c.s.dsl())
+        if k % law_mod:
+            continue
         for o in (0, 1):
             i = "l%s%d.%d" % (tag, k, o)
             lines.append("%s %s law %s %s %s %d" % (i, COMP, d, c.a, c.b, o))
@@ -385,8 +396,9 @@ def process(cx, schemas, cases, tag, laws=True, apply3=True):
         eval_law(cx, c, o, rep.get(i, ["err", "NoReply"]))
 
 
-def differential(cx, head, lines, kind, nontrivial):
-    """cx.differential with the schema registrations in front of the batch (not counted as cases)"""
+def differential(cx, head, lines, kind, nontrivial, skip=None):
+    """cx.differential with the schema registrations in front of the batch (not counted as cases); skip(line, impl_reply):
+    the case is outside the model's fragment, decided from what the implementation answered"""
     if not lines:
         return {}, {}
     ri = cx.run_impl(HARNESS, head + lines, component=COMP, env=ENV)
@@ -402,6 +414,9 @@ def differential(cx, head, lines, kind, nontrivial):
         if l in lines:
             cx.count(" ".join(l.split()[2:]), nontrivial(l, a), kind(l, a))
         if a != b and a[:2] not in (["err", "Crash"], ["err", "Timeout"]):
+            if skip is not None and l in lines and skip(l, a):
+                cx.dist["out-of-fragment(diff)"] += 1
+                continue
             cx.disagree(COMP, l, a, b)
     cx.sample(lines[cx.rng.randrange(len(lines))][:600])
     return ri, rm
@@ -436,22 +451,36 @@ def eval_law(cx, c, o, reply):
 
 
 def exhaustive(cx):
-    plan = [("list", cx.n(4, 5)), ("leaflist", cx.n(4, 5)), ("keyless", cx.n(3, 4)), ("statell", cx.n(3, 4)), ("statelist", cx.n(3, 4))]
-    total = 0
-    for kind, nk in plan:
+    """all ordered pairs of duplicate-free user-ordered sequences over <= n keys, at the top level (complete) and, for a sample,
+    nested in a container between two leaves (the algorithm does not depend on the level)"""
+    thorough = cx.tier == "thorough"
+    #        kind         keys   share of the pairs taken at the top level   share nested
+    plan = [("list", 5 if thorough else 4, 1, 0 if thorough else 4), ("leaflist", 5 if thorough else 4, 4 if thorough else 1, 0 if thorough else 4),
+            ("keyless", 4 if thorough else 3, 1, 1), ("statell", 4 if thorough else 3, 1, 1), ("statelist", 4 if thorough else 3, 1, 1)]
+    if thorough:
+        plan += [("leaflist", 4, 1, 1), ("list", 4, 0, 1)]
+    total, complete = 0, []
+    for kind, nk, top_mod, nested_mod in plan:
         s, seqs, tree = userord_cases(cx, kind, nk)
         cases = []
-        for nested in (True, False):
-            # the nested placement only for a sample in the big runs: the algorithm does not depend on the level
+        for nested, mod in ((False, top_mod), (True, nested_mod)):
+            if not mod:
+                continue
             for ia, x in enumerate(seqs):
                 for ib, y in enumerate(seqs):
-                    if not nested or len(seqs) <= 20 or (ia * 7 + ib) % cx.n(4, 5) == 0:
+                    if mod == 1 or (ia * 7 + ib) % mod == 0:
                         cases.append(Case(s, tree(x, nested), tree(y, nested), "userord-" + kind))
+        if top_mod == 1:
+            complete.append("%s<=%d" % (kind, nk))
         total += len(cases)
         for lo in range(0, len(cases), 6000):
-            process(cx, [s], cases[lo:lo + 6000], tag="x%s%d" % (kind, lo), laws=True, apply3=False)
+            # the complete 5-key runs: every pair through diff and apply of implementation and model, every third one through
+            # the (three times more expensive) print/parse routes of the law op as well
+            process(cx, [s], cases[lo:lo + 6000], tag="x%s%d.%d" % (kind, nk, lo), laws=True, apply3=False,
+                    law_mod=3 if nk >= 5 else 1)
     cx.exhaustive = True
-    cx.notes.append("exhaustive: %d ordered pairs of duplicate-free user-ordered sequences (%s)" % (total, ", ".join("%s<=%d" % p for p in plan)))
+    cx.notes.append("exhaustive: %d ordered pairs of duplicate-free user-ordered sequences; complete at the top level for %s"
+                    % (total, ", ".join(complete)))
 
 
 def replay(cx, payload):
